@@ -2,16 +2,20 @@ from registry import check
 
 check('C15', title='Socket reader frames the byte stream exactly',
       level='model_checking', engine='sim+deviation-bounded search',
-      technique='deviation-bounded exhaustive exploration of the environment\'s answers to receiveBytes (short reads, early EOF) on the real FIXReader in both process models, plus exhaustive enumeration of a preamble corruption family against a reference preamble classifier',
+      technique='deviation-bounded exhaustive exploration of the environment\'s answers to receiveBytes (short reads, early EOF) on the real FIXReader in both process models, exhaustive enumeration of a preamble corruption family against a reference preamble classifier, and preemption-bounded exhaustive schedule search of two readers in one process',
       design_ref='DESIGN.md §3 C15',
       text='Part chunks: streams of 1-3 valid messages (1- to 4-digit BodyLength, including the largest body the reader accepts) are read by the real Connection/FIXReader over a scripted socket; every '
            'execution with at most k departures from the default answer "all requested bytes" (1 byte, n-1 bytes, half, end of stream) is run, plus the two extreme policies; the strings handed to '
            'Session::process must be exactly the messages, in order (with an early end of stream: exactly the messages completely read before it). Part preamble: every single-byte substitution from '
            '{digit, SOH, =, X, NUL, 9} in the first 16 bytes, other/longer/shorter BeginStrings, BodyLength texts (0, 00, 8172, 8173, 99999, 4294967297, X5, empty, -5, 5X, 1e3, blank), wrong first field, '
            'preambles without separator followed by up to 9000 digits, garbage; a reference classifier decides which are wrong BeginString / non-numeric / zero / oversized BodyLength / malformed first field, '
-           'and for those the reader must stop with an error, hand nothing on and raise no sanitizer report. A numeric in-range but wrong BodyLength cannot be detected by framing and is judged for memory safety only.',
+           'and for those the reader must stop with an error, hand nothing on and raise no sanitizer report. A numeric in-range but wrong BodyLength cannot be detected by framing and is judged for memory safety only. '
+           'Part two-readers: two connections in one process, each with its own scripted socket, read by two threads running the real reader loop (threaded model) under the cooperative scheduler; every receiveBytes call is a '
+           'scheduling point and hands over at most `chunk` bytes, so either reader can be interrupted anywhere inside a message; every schedule with at most b preemptions; each session must be handed exactly its own messages.',
       level_note='k = 2 (quick) / 3 (thorough) deviations; the corruption family is finite and stated; byte strings outside it are not covered.',
       rule='chunks: case = (stream, process model, set of (call index -> answer) deviations), non-trivial = at least one deviation; preamble: case = (corruption, process model)',
       assumptions=['sim runtime; the session is replaced by a recorder of what the reader hands to Session::process'],
       parts=[dict(name='chunks', harness='c15_reader', variant='san', quick=dict(args=['part=chunks', 'k=2'], deadline=100), thorough=dict(args=['part=chunks', 'k=3'], deadline=800)),
-             dict(name='preamble', harness='c15_reader', variant='san', quick=dict(args=['part=preamble'], deadline=60), thorough=dict(args=['part=preamble'], deadline=60))])
+             dict(name='preamble', harness='c15_reader', variant='san', quick=dict(args=['part=preamble'], deadline=60), thorough=dict(args=['part=preamble'], deadline=60)),
+             dict(name='two-readers', harness='c15_two_readers', variant='schedp', inproc=True, quick=dict(args=['msgs=2', 'chunk=24', 'bound=2'], deadline=60), thorough=dict(args=['msgs=3', 'chunk=8', 'bound=3'], deadline=500)),
+             dict(name='two-readers-asan', harness='c15_two_readers', variant='sched', inproc=True, quick=dict(args=['msgs=1', 'chunk=24', 'bound=1'], deadline=60), thorough=dict(args=['msgs=2', 'chunk=24', 'bound=2'], deadline=300))])
